@@ -45,6 +45,12 @@ CHECKS["C17"] = dict(level="model_checking",
   note="TLA+ has no notion of real stack frames: the bound is measured by the harness on the real code (runtime.Callers) and checked against the spec's abstract statement. Trusted: TLC, renderers, rt.Rec probe.",
   design="7 C17")
 
+CHECKS["C10"] = dict(level="model_checking",
+  technique="explicit TLA+ specification of Go's range (RangeSem: UTF-8 table, snapshot/live-read rules; mutation interleavings as spec actions explored by TLC) with every case replayed on the real iterators; map loops by trace validation (Trace_Map) of recorded event traces",
+  text="RangeSem.tla transcribes Go's range semantics: UTF-8 decoding table with byte-offset keys and U+FFFD/width-1 recovery, 0..n-1 for ints, header snapshot + live element reads for slices, FIFO-until-close for channels. TLC enumerates all strings up to the length bound over a 16-byte boundary alphabet (plus seeded random longer strings passed in as data), all small ints, and every interleaving of up to 2-3 mutations (store, append, reslice, send, close) with the iterations of slice/channel loops, emitting the expected pairs; the real New*Iter iterators are driven on each. Map loops (unspecified order) are recorded as event traces -- natively and through NewMapIter, incl. nil interface keys/values and delete/insert during the loop -- and validated against Trace_Map.tla.",
+  note="Spec validated against native Go range on every case (exit 2 on disagreement; the native map traces must be accepted too). Trusted: TLC, the fixed driver program that interprets mutation scripts.",
+  design="7 C10, 3.7")
+
 NOT_YET = {}
 
 def main():
